@@ -1410,6 +1410,11 @@ class ThreadsafeForwardingResult(TestResult):
         super().tags(new_tags, gone_tags)
         if self._test_start is not None:
             self._test_tags = _merge_tags(self._test_tags, (new_tags, gone_tags))
+        elif self._tags is not None and self._tags.parent is not None:
+            # Still inside a test, but its outcome has been forwarded already:
+            # the change is local to that test and ends with it at stopTest,
+            # so it must not be replayed in front of later tests.
+            pass
         else:
             self._global_tags = _merge_tags(self._global_tags, (new_tags, gone_tags))
 
